@@ -1,10 +1,174 @@
-import CueVerif.Driver.Proto
-namespace CueVerif.Driver.C06
-open CueVerif CueVerif.Driver
+/-
+Line protocol for C06 (arithmetic, comparison, number literals, number printing).
 
-/-- protocol handler for C06: words of one op line (after the property id) → answer -/
+  bin <op> <a> <b>        O  value level.  op ∈ add sub mul quo | div mod iquo rem | eq ne lt le gt ge;
+                             a, b = CUE number literals as written (ASCII), optionally preceded by `-`
+                             (a unary minus).  Answer: `int <c>e<x>` / `float <c>e<x>` with the decimal
+                             NORMALISED (no trailing zeros, zero = 0e0), `true` / `false`,
+                             `err:divzero` `err:failed` `err:operands` `err:argkind`, `err:lit`.
+  binrepr <op> <a> <b>    I  representation level: `<kind> <coeff>e<exp> <json text> <cue text>`
+                             (exact apd coefficient/exponent, MarshalJSON text, Syntax+format text).
+  cmps <op> <x> <y>       O  comparison of strings / bytes / a number: x, y = `s:<hex>` `y:<hex>` `n:<lit>`.
+  lit <hex>               O  value of a spelling through `compiler.parse`: `int|float <c>e<x>` (normalised),
+                             `nan`, `err`.
+  litrepr <hex>           I  the same with the exact coefficient/exponent.
+  litspec <ast…>          O  the SPECIFICATION: `<hex spelling> <kind> <num>/<den>` of a grammar tree
+                             (`not-wf` if the tree violates the EBNF side conditions, `huge` if the
+                             exponent is beyond ±200000).
+  round <p> <c> <x>       I  `round p ⟨c,x⟩` as `<c>e<x> <inexact>` (used for the AppendFloat check).
+-/
+import CueVerif.Driver.Proto
+import CueVerif.Model.NumVal
+import CueVerif.Spec.Arith
+namespace CueVerif.Driver.C06
+open CueVerif CueVerif.Driver CueVerif.Arith CueVerif.NumVal
+
+def bytesOf (s : String) : List Nat := s.toList.map Char.toNat
+def strOf (bs : List Nat) : String := String.ofList (bs.map Char.ofNat)
+
+def kindStr : Kind → String
+  | .int => "int"
+  | .float => "float"
+
+def decStr (d : Dec) : String := s!"{d.coeff}e{d.exp}"
+
+def errStr : Err → String
+  | .divZero => "err:divzero"
+  | .failed => "err:failed"
+  | .operands => "err:operands"
+  | .argKind => "err:argkind"
+
+/-- an operand: optional `-` then a literal -/
+def operand (s : String) : Option Num :=
+  match readBack (bytesOf s) with
+  | .ok n => some n
+  | _ => none
+
+def resValue : Res → String
+  | .num n => s!"{kindStr n.k} {decStr (Dec.normalize n.d)}"
+  | .bool b => boolStr b
+  | .err e => errStr e
+
+def resRepr : Res → String
+  | .num n => s!"{kindStr n.k} {decStr n.d} {strOf (jsonNum n)} {strOf (printNum n)}"
+  | .bool b => boolStr b
+  | .err e => errStr e
+
+def cop? : String → Option COp
+  | "eq" => some .eq | "ne" => some .ne | "lt" => some .lt
+  | "le" => some .le | "gt" => some .gt | "ge" => some .ge
+  | _ => none
+
+def binOp (op : String) (x y : Num) : Option Res :=
+  match op with
+  | "add" => some (numOp .add x y)
+  | "sub" => some (numOp .sub x y)
+  | "mul" => some (numOp .mul x y)
+  | "quo" => some (quoOp x y)
+  | "div" => some (intDivOp .div x y)
+  | "mod" => some (intDivOp .mod x y)
+  | "iquo" => some (intDivOp .quo x y)
+  | "rem" => some (intDivOp .rem x y)
+  | _ => (cop? op).map fun c => cmpOp c (.num x) (.num y)
+
+def runBin (show_ : Res → String) (op a b : String) : String :=
+  match operand a, operand b with
+  | some x, some y =>
+    match binOp op x y with
+    | some r => show_ r
+    | none => "bad-op"
+  | _, _ => "err:lit"
+
+def val? (s : String) : Option Val :=
+  if s.startsWith "s:" then (unhex (s.drop 2).toString).map Val.str
+  else if s.startsWith "y:" then (unhex (s.drop 2).toString).map Val.bytes
+  else if s.startsWith "n:" then (operand (s.drop 2).toString).map Val.num
+  else none
+
+open CueVerif.Spec.Arith in
+def letter? : String → Option MulLetter
+  | "K" => some .K | "M" => some .M | "G" => some .G | "T" => some .T | "P" => some .P
+  | _ => none
+
+open CueVerif.Spec.Arith in
+def ex? (s : String) : Option (Option Exponent) :=
+  if s == "-" then some none else
+  match s.toList with
+  | m :: sg :: ds =>
+    let up := m == 'E'
+    let sign? : Option Sign := if sg == '+' then some .plus else if sg == '-' then some .minus
+      else if sg == 'n' then some .none else none
+    if m != 'e' && m != 'E' then none else
+    sign?.map fun sg => some { upper := up, sign := sg, ds := ds.map Char.toNat }
+  | _ => none
+
+def opt? (s : String) : Option (List Nat) := if s == "-" then none else some (bytesOf s)
+
+open CueVerif.Spec.Arith in
+def lit? (ws : List String) : Option Lit :=
+  match ws with
+  | ["dec", ds] => some (.dec (bytesOf ds))
+  | ["bin", ds] => some (.bin (bytesOf ds))
+  | ["oct", ds] => some (.oct (bytesOf ds))
+  | ["hex", u, ds] => some (.hex (u == "1") (bytesOf ds))
+  | ["si", ip, fp, l, i] => (letter? l).map fun l => .si (bytesOf ip) (opt? fp) ⟨l, i == "1"⟩
+  | ["sidot", fp, l, i] => (letter? l).map fun l => .siDot (bytesOf fp) ⟨l, i == "1"⟩
+  | ["fpoint", ip, fp, ex] => (ex? ex).map fun ex => .fPoint (bytesOf ip) (opt? fp) ex
+  | ["fexp", ip, ex] =>
+    match ex? ex with
+    | some (some x) => some (.fExp (bytesOf ip) x)
+    | _ => none
+  | ["fdot", fp, ex] => (ex? ex).map fun ex => .fDot (bytesOf fp) ex
+  | _ => none
+
+open CueVerif.Spec.Arith in
+def litExpOf : Lit → Int
+  | .fPoint _ _ ex => exVal ex
+  | .fExp _ ex => ex.value
+  | .fDot _ ex => exVal ex
+  | _ => 0
+
+def litResValue : LitRes → String
+  | .ok n => s!"{kindStr n.k} {decStr (Dec.normalize n.d)}"
+  | .nan => "nan"
+  | .err => "err"
+
+def litResRepr : LitRes → String
+  | .ok n => s!"{kindStr n.k} {decStr n.d}"
+  | .nan => "nan"
+  | .err => "err"
+
 def handle (ws : List String) : String :=
   match ws with
+  | ["bin", op, a, b] => runBin resValue op a b
+  | ["binrepr", op, a, b] => runBin resRepr op a b
+  | ["cmps", op, x, y] =>
+    match cop? op, val? x, val? y with
+    | some c, some vx, some vy => resValue (cmpOp c vx vy)
+    | _, _, _ => "bad-op"
+  | ["lit", h] =>
+    match unhex h with
+    | some s => litResValue (litValue s)
+    | none => "bad-op"
+  | ["litrepr", h] =>
+    match unhex h with
+    | some s => litResRepr (litValue s)
+    | none => "bad-op"
+  | "litspec" :: rest =>
+    match lit? rest with
+    | some l =>
+      if !l.wf then "not-wf"
+      else if litExpOf l > 200000 || litExpOf l < -200000 then "huge"
+      else
+        let q := l.denote
+        s!"{hex l.spell} {kindStr l.kind} {q.num}/{q.den}"
+    | none => "bad-op"
+  | ["round", p, c, x] =>
+    match p.toNat?, parseInt? c, parseInt? x with
+    | some p, some c, some x =>
+      let r := Arith.round p ⟨c, x⟩
+      s!"{decStr r.1} {boolStr r.2}"
+    | _, _, _ => "bad-op"
   | _ => "bad-op"
 
 end CueVerif.Driver.C06
